@@ -954,7 +954,9 @@ def canon_record(ck, F, rule="CANON-RECORD"):
                 # under SetCellValue / SetArrayValue even stored (English) text is re-read under the replaying language
                 if ok and via[1] in ("set_user_input", "set_user_array_formula"):
                     ok = False
-                key = "%s|%s.%s|%s" % (me, rv["variant"], k, origin)
+                # keyed by recorder and field (not by where the text came from: an equivalent rewrite of the recorder
+                # must not turn a listed finding into a new one)
+                key = "%s|%s.%s" % (me, rv["variant"], k)
                 idx = seen[key] = seen.get(key, 0) + 1
                 if idx > 1:
                     key += "#%d" % idx
